@@ -416,16 +416,6 @@ theorem Kept.le_size_new {o n : Sk} {k : Nat} (h : Kept o n k) : k ≤ n.size :=
 
 /-! ### the boundary -/
 
-theorem carried_le_old (o n : Sk) : carried (diff o n) ≤ o.size := by
-  have g := diff_good o n
-  simpa using carried_le_src (diff o n) 0 o.size g.sorted (fun p hp => ⟨Nat.zero_le _, (g.within p hp).1⟩)
-    (Nat.zero_le _)
-
-theorem carried_le_new (o n : Sk) : carried (diff o n) ≤ n.size := by
-  have g := diff_good o n
-  simpa using carried_le_dst (diff o n) 0 n.size g.sorted (fun p hp => ⟨Nat.zero_le _, (g.within p hp).2⟩)
-    (Nat.zero_le _)
-
 /-- decidable superset of the pairs on which the survivor clause can fail for the pinned algorithm: the edit is
 "only additions" (`embeds o n`) but the pair is outside `addOnly` and outside `mixedOk`, or "only removals"
 and outside `removeOnly` and `mixedOk`. -/
